@@ -129,7 +129,9 @@ Record Inv (S : gstate) : Prop := {
   I_err : forall h, honest h -> gerrs h (emitted S) = match ph (g S h) with Failed => [tt] | _ => [] end;
   I_ctx : forall h, honest h -> In (h, CtxDone) (hist S) -> ph (g S h) = Failed \/ exists L, ph (g S h) = Done L;
   I_auth : forall h from m, In (h, Handle from m) (hist S) -> honest from -> accepts (cfgOf h) from m = true ->
-     authentic S h from m }.
+     authentic S h from m;
+  I_fail : forall h, honest h -> ph (g S h) = Failed ->
+     In (h, CtxDone) (hist S) \/ (exp < 1 + length (keys (views (g S h))))%nat }.
 
 Lemma Inv_init : Inv ginit.
 Proof.
@@ -137,6 +139,7 @@ Proof.
   - intros. constructor.
   - intros. discriminate.
   - intros h L _ [[n H]|H]; discriminate.
+  - intros. discriminate.
 Qed.
 
 Lemma NoDup_snoc {A} (l : list A) (a : A) : NoDup l -> ~ In a l -> NoDup (l ++ [a]).
@@ -165,7 +168,7 @@ Proof.
   intros HI Hadm. destruct ge as [h ev]. destruct Hadm as [Hh Hauth].
   pose proof (announced_mono S (h, ev)) as AM.
   unfold gstep in *. destruct (step (cfgOf h) (g S h) ev) as [st' o] eqn:Hs.
-  destruct HI as [J1 J2 J3 J4 J5 J6 J7 J8 J9 J10 J11].
+  destruct HI as [J1 J2 J3 J4 J5 J6 J7 J8 J9 J10 J11 J12].
   set (g' := fun x => if N.eq_dec x h then st' else g S x).
   assert (Hgh : g' h = st') by (unfold g'; destruct (N.eq_dec h h); congruence).
   assert (Hgo : forall x, x <> h -> g' x = g S x) by (intros x Hx; unfold g'; destruct (N.eq_dec x h); congruence).
@@ -349,6 +352,20 @@ Proof.
     { unfold authentic. destruct m as [[ty tg] v]. intros [A|A]; [left|right]; apply EM; auto. }
     apply in_app_iff in Hin. destruct Hin as [Hin|[Hin|[]]]; [apply Mono; eauto|].
     inversion Hin; subst x ev. apply Mono. apply Hauth; assumption.
+  - (* I_fail *)
+    intros x Hx Hf. destruct (N.eq_dec x h) as [->|Hxh].
+    2:{ rewrite (Hgo x Hxh) in *. destruct (J12 x Hx Hf) as [A|A]; [left; apply in_app_iff; auto|right; exact A]. }
+    rewrite Hgh in *.
+    assert (Hlen : (length (keys (views (g S h))) <= length (keys (views st')))%nat).
+    { apply NoDup_incl_length; [apply J1, Hh|exact V1]. }
+    destruct (step_fail _ _ _ _ _ Hs Hf) as [Hold|[Hev|(Hev & pend & s & Hp & Hc & Hlt)]].
+    + destruct (J12 h Hh Hold) as [A|A]; [left; apply in_app_iff; auto|right; lia].
+    + left. apply in_app_iff. right. left. rewrite Hev. reflexivity.
+    + right. destruct (J3 h pend s Hh Hp) as (_ & _ & Hnds & Hprov).
+      assert (Hincl : incl (keys s) (keys (views (g S h)))).
+      { intros k Hk. destruct (keys_in _ _ Hk) as [v Hv']. apply (Hprov k v Hv'). }
+      pose proof (intersected_length_bound (cfgOf h) s (keys (views (g S h))) (J1 h Hh) Hselfks Hnds Hincl) as Hb.
+      simpl in Hlt. lia.
 Qed.
 
 Lemma reachable_Inv S : reachable S -> Inv S.
@@ -473,5 +490,38 @@ Proof.
   apply (I_ctx _ (reachable_Inv S' HR') h Hh).
   clear - Hin Hext. induction Hext as [|S' ge Hext IH Hadm]; [assumption|].
   unfold gstep. destruct ge as [x ev]. destruct (step (cfgOf x) (g S' x) ev). simpl. apply in_app_iff. auto.
+Qed.
+
+(* C07, "exactly the expected number of honest members and nobody else": in EVERY interleaving of such a run
+   -- the members are the duplicate-free list H, exp = |H|, all traffic handled comes from members of H --
+   a member can fail only through its context (the deadline), and whoever completes, completes with the sorted
+   list of all of H.  (Together with Live.v: the deadline is the only obstacle, and a fair schedule completes.) *)
+Theorem exact_run_only_deadline S (H : list N) :
+  reachable S -> NoDup H -> (forall x, honest x <-> In x H) -> length H = exp ->
+  (forall h from m, In (h, Handle from m) (hist S) -> In from H) ->
+  forall h, honest h ->
+    (In (h, Return_err) (emitted S) -> In (h, CtxDone) (hist S)) /\
+    (forall L, In (h, Continue L) (emitted S) -> L = isort H).
+Proof.
+  intros HR Hnd Hhon Hlen Honly h Hh. pose proof (reachable_Inv S HR) as HI.
+  assert (Hkeys : incl (keys (views (g S h))) (remove N.eq_dec h H)).
+  { intros k Hk. destruct (keys_in _ _ Hk) as [v Hv]. destruct (I_views _ HI h k v Hh Hv) as (Hne & _ & ty & _ & Hin).
+    apply in_in_remove; [exact Hne|]. eapply Honly; eauto. }
+  assert (HhH : In h H) by (apply Hhon, Hh).
+  assert (Hrl : (1 + length (remove N.eq_dec h H) = length H)%nat).
+  { clear - Hnd HhH. induction H as [|a L IH]; simpl in *; [contradiction|]. inversion Hnd; subst.
+    destruct (N.eq_dec h a) as [->|Hne].
+    - rewrite notin_remove by assumption. reflexivity.
+    - destruct HhH as [E|HhH]; [congruence|]. simpl. rewrite <- (IH H2 HhH). reflexivity. }
+  pose proof (NoDup_incl_length (I_nodup _ HI h Hh) Hkeys) as Hkl.
+  split.
+  - intros Herr. apply in_gerrs in Herr. rewrite (I_err _ HI h Hh) in Herr.
+    destruct (ph (g S h)) eqn:Ep; simpl in Herr; try contradiction.
+    destruct (I_fail _ HI h Hh Ep) as [A|A]; [exact A|lia].
+  - intros L Hc. pose proof (continue_done S h L HR Hh Hc) as Hd.
+    destruct (I_ql _ HI h L Hh (or_intror Hd)) as (_ & A & B & _ & D & _ & _).
+    apply ssorted_incl_length; [exact A|apply isort_ssorted, Hnd| |rewrite isort_length; congruence].
+    intros x Hx. apply isort_in. destruct (D x Hx) as [<-|Hk]; [exact HhH|].
+    apply Hkeys in Hk. apply in_remove in Hk. tauto.
 Qed.
 End Global.
